@@ -4,6 +4,7 @@ programs: in every answer set at every horizon of one incremental run, w_i(k) ho
 (TEL.lsat) of phi_i at k is true; formulas share sub-formulas through a pool; (b) constraints over &tel atoms compared
 with Oracle.tsm_enum."""
 import json
+import meta
 import gen, s4, lang, thstruct
 from props import c01
 
@@ -149,6 +150,9 @@ def run(ctx):
         if r['status'] in ('differ', 'implerror', 'modelerror'):
             cex.append({'key': 'c03:structure:' + r['program'].replace('\n', ' '), 'what': 'Theory.translate and the model Model/BodyTheoryFull.v differ: %s' % r.get('what'),
                         'input': {'structure': [[p_, f] for p_, f in fs], 'H': H, 'program': r['program']}})
+    # atoms with arguments: the constraint programs with their atoms renamed to atoms with arguments against the programs themselves
+    rcex, rnon = meta.renaming_cex(ctx, [p for _, p in progs][:40 if ctx.quick else 200], 3, 'C03')
+    cex += rcex
     ops = {}
     shared = 0
     for c, fs in its:
@@ -161,7 +165,7 @@ def run(ctx):
     for r in recs:
         stat[r['status']] = stat.get(r['status'], 0) + 1
     nontriv = len({r['program'] for r in recs if r['status'] == 'agree' and 0 < r['true_values'] < r['values']})
-    cov = {'evaluations': len(recs) + len(recs2) + len(srecs), 'structure_status_histogram': sstat, 'structure_events_compared': sum(r['events'] for r in srecs), 'distinct_nontrivial': nontriv + res2['coverage']['distinct_nontrivial'],
+    cov = {'evaluations': len(recs) + len(recs2) + len(srecs) + 2 * (40 if ctx.quick else 200), 'renamed_programs_with_answer_sets': rnon, 'structure_status_histogram': sstat, 'structure_events_compared': sum(r['events'] for r in srecs), 'distinct_nontrivial': nontriv + res2['coverage']['distinct_nontrivial'],
            'rule': 'witness programs: random context program over a,b(,c) + 1-4 witness rules over formulas of depth <= %d drawn with a shared sub-formula pool; horizons 0..%d '
                    'of one incremental run; every state of every answer set is compared with TEL.lsat; non-trivial = a program whose witness values are neither all true nor all false; '
                    'constraint programs: %s; structure: %d programs of 1-3 observer constraints over related formulas (all operators except the keywords &initial/&final and >>), '
@@ -187,6 +191,8 @@ def totuple(x):
 
 def replay(ctx, payload):
     inp = payload['input']
+    if 'renaming' in inp:
+        return meta.renaming_replay(ctx, payload)
     if 'structure' in inp:
         r = thstruct.compare(ctx, [[(p_, totuple(f)) for p_, f in inp['structure']]], inp.get('H', 3))[0]
         return r['status'] in ('differ', 'implerror', 'modelerror')
